@@ -463,8 +463,31 @@ func c07TwoBytes(conn int, l nletter) []byte {
 
 // runScripts serves the given per-connection steps on ONE server in the given
 // global order and returns the per-step observations per connection.
+// c07Shared: the application's ParseFn hands out, for one query text, statements that all share ONE parameter-type
+// slice (a statement cache of its own) — what the library stores under a name must not be altered through it by a
+// later definition on any connection.
+var c07Shared bool
+
 func c07ServeTwo(order []twoStep) (obs [2][]string, engine string) {
 	recs := [2]*script.Rec{{}, {}}
+	if c07Shared {
+		cache := map[string][]oid.Oid{}
+		opts := func(q string) []wire.PreparedOptionFn {
+			if _, ok := cache[q]; !ok {
+				n := 0
+				if len(q) > 0 && q[0] >= '1' && q[0] <= '9' {
+					n = int(q[0]-'0') - 1
+				}
+				ts := make([]oid.Oid, n)
+				for i := range ts {
+					ts[i] = oid.T_text
+				}
+				cache[q] = ts
+			}
+			return []wire.PreparedOptionFn{wire.WithParameters(cache[q])}
+		}
+		recs[0].StmtOpts, recs[1].StmtOpts = opts, opts
+	}
 	multi := &script.Multi{M: map[string]*script.Rec{}}
 	srv, err := harness.NewServer(multi.ParseFn())
 	if err != nil {
@@ -533,6 +556,33 @@ func c07RunTwo(order []twoStep) explore.Result {
 	}
 	res.Key = strings.Join(names, " ")
 	res.States = []string{"two-conn/" + fmt.Sprint(len(order))}
+	return res
+}
+
+// c07RunTwoTyped: like c07RunTwo (each connection against its own messages served alone), and additionally, on ONE
+// connection too, a Describe(S a) not preceded by a new definition of "a" answers what the previous Describe(S a) of
+// that connection answered ("the statement currently stored under the name").
+func c07RunTwoTyped(order []twoStep) explore.Result {
+	res := c07RunTwo(order)
+	if len(res.Violations) > 0 || res.Engine != "" {
+		return res
+	}
+	together, _ := c07ServeTwo(order)
+	idx := [2]int{}
+	last := [2]string{}
+	for _, s := range order {
+		o := together[s.conn][idx[s.conn]]
+		idx[s.conn]++
+		switch {
+		case s.l.Kind == "parse" && s.l.A == "a":
+			last[s.conn] = ""
+		case s.l.Kind == "descS" && strings.Contains(o, "t["): // (an unanswered or refused Describe says nothing)
+			if last[s.conn] != "" && last[s.conn] != o {
+				res.Fail("stored-statement-altered", fmt.Sprintf("connection %d: statement \"a\" was not defined again, yet\n  %s\nafter it had been described as\n  %s", s.conn, o, last[s.conn]))
+			}
+			last[s.conn] = o
+		}
+	}
 	return res
 }
 
@@ -972,6 +1022,36 @@ func c07Enumerate(tier string, emit explore.Emit) {
 		emit(explore.Case{Family: "single-connection", Size: len(hist),
 			Desc: func() any { return map[string]any{"history": names} },
 			Run:  func() explore.Result { return c07Run(hist) }})
+	})
+	// definitions that pre-declare parameter types, on statements whose type slice the application shares
+	typed := []nletter{
+		{Name: "Parse(a,q1)", Kind: "parse", A: "a", B: c07Q1, Bytes: pgproto.Parse("a", c07Q1)},
+		{Name: "Parse(a,q1,types=[int4])", Kind: "parse", A: "a", B: c07Q1, Bytes: pgproto.Parse("a", c07Q1, 23)},
+		{Name: "Parse(b,q1,types=[int8])", Kind: "parse", A: "b", B: c07Q1, Bytes: pgproto.Parse("b", c07Q1, 20)},
+		{Name: "Describe(S a)", Kind: "descS", A: "a", Bytes: pgproto.Describe('S', "a")},
+	}
+	forShapes(2*len(typed), 4, func(sh []int) {
+		if len(sh) < 2 {
+			return
+		}
+		order := make([]twoStep, len(sh))
+		names := make([]string, len(sh))
+		for i, s := range sh {
+			order[i] = twoStep{conn: s / len(typed), l: typed[s%len(typed)]}
+			names[i] = fmt.Sprintf("c%d:%s", order[i].conn, order[i].l.Name)
+		}
+		if order[0].conn != 0 {
+			return
+		}
+		emit(explore.Case{Family: "two-connections", Size: 120 + len(order),
+			Desc: func() any {
+				return map[string]any{"interleaved_history": names, "application_shares_one_type_slice_per_query": true}
+			},
+			Run: func() explore.Result {
+				c07Shared = true
+				defer func() { c07Shared = false }()
+				return c07RunTwoTyped(order)
+			}})
 	})
 	two := c07TwoAlphabet()
 	forShapes(2*len(two), d2, func(sh []int) {
